@@ -94,7 +94,10 @@ def run(v):
                 "schedule contains a fault. (c) the real Replica.Restore in child processes on three replicas built by real "
                 "DB histories (L0 chain; L1 then L0; snapshot then L0): every plan file x {delete (latest and pinned TXID), "
                 "truncate (every offset for small files, else boundary offsets + the 14 offsets around the page-block end + "
-                "sample), flip one bit (boundary bytes + sample)}, pre-existing output, failing quick_check, and k in "
+                "sample), flip one bit (boundary bytes + sample)}, pre-existing output, ten checksum-valid replicas (real "
+                "ltx.Encoder + file WriteLTXFile) whose image SQLite rejects (not-a-database, schema root garbage, damaged "
+                "table pages, freelist, truncated image) x {quick_check, integrity_check, no check, cancelled context} — "
+                "failures both reported as rows and as statement errors must occur —, cancelled context on good replicas, and k in "
                 "{0,1,3,4,6} consecutive read failures (error / premature EOF / open error) at 4 offsets; each outcome goes "
                 "through the oracle restore_disc_ok (obs_ok of Faults/Restore.v) and the Go-side expectations. "
                 "non-trivial = anything but an undamaged restore. distinct = distinct (entry, input).",
@@ -103,6 +106,7 @@ def run(v):
         "restore_outcomes": extra.get("restore_outcomes"),
         "restore_jobs": extra.get("restore_jobs"),
         "restore_panic_messages": extra.get("restore_panic_messages"),
+        "integrity_failure_flavours": extra.get("integrity_failure_flavours"),
         "hash_strength_measured": "flips/truncations accepted by Restore: all decode to the identical image "
                                   "(see restore_outcomes: */ok-identical vs */ok-DIFFERENT)",
         "restore_source_op_order": ({"success_path": src_ops[0], "failed_integrity_path": src_ops[1]} if src_ops else
@@ -110,6 +114,12 @@ def run(v):
         "model_mismatches": len(mism),
         "runner_errors": errors[:5],
     })
+    fl = extra.get("integrity_failure_flavours") or {}
+    if not fl.get("reported-as-rows") or not fl.get("statement-error"):
+        v.violation("C10/harness-coverage-integrity-flavours",
+                    "the generated damaged images no longer make the integrity check fail in both ways "
+                    "(rows and statement error): %s" % fl,
+                    {"theorem_or_correspondence": "harness coverage (restore part, broken replicas)"}, False)
     if errors:
         v.violation("C10/runner-error", "; ".join(errors[:3]), {"theorem_or_correspondence": "runner"}, False)
     # property-level failures observed on the implementation by the harness (each has its own signature)
